@@ -82,6 +82,22 @@ CHECKS = {
         note="Default schedule, no faults; both devices are nfcpy; the SNEP "
              "client's own socket parameters are fixed by the library "
              "(MIU 128, RW 1)."),
+    'C04': dict(
+        category='fault_enumeration', design='2/C04',
+        technique="deviation-bounded exhaustive enumeration of frame fate "
+                  "scripts (deliver/lose/corrupt) over real Initiator and "
+                  "Target in virtual threads, against a list reference model",
+        text="Real nfc.dep.Initiator and Target (real activation) exchange a "
+             "6-step conversation with chaining both ways over a half-duplex "
+             "channel; every script with <= 2 (thorough 3) lost or corrupted "
+             "frames is executed for a grid of LR pairs, DID/NAD, 106A/212F "
+             "framing and RTOX positions; delivered payloads are compared with "
+             "the sent lists (exactly once, in order, complete), single faults "
+             "per step must be recovered, only CommunicationError may be "
+             "raised, and no frame may exceed the receiver's LR.",
+        note="Faults are loss and CRC-type corruption per frame; no timer "
+             "races; the channel and frame parser are sim/depchan.py; the "
+             "grid is a covering selection stated in the evidence."),
 }
 
 NOT_YET = "check not built yet in this round (see DESIGN.md section 2 for the planned design)"
